@@ -36,6 +36,7 @@ def run(ctx):
     ctx.rule('R19.1', 'single writer per directory; chunk header and data written back-to-back; descriptor inserted only when absent')
     ctx.rule('R19.2', 'writer completeness: end marker sent before leaving the loop; exit status interpreted after the pipes were drained; flush after the task on every path')
     ctx.rule('R19.3', 'reader: new instance record whenever the id differs; sorted by instance id; output paths use last_instance(); finished only on a zero-size header')
+    ctx.rule('R19.5', 'torn writer file: a chunk header cut short by a worker crash (bincode Io(UnexpectedEof)) ends that file quietly (Ok(None)); it does not fail the whole directory')
     ctx.rule('R19.4', 'both sides share StreamChunkHeader, StreamSerializationConfig and STREAM_FILE_HEADER')
 
     # ---- R19.1
@@ -180,3 +181,29 @@ def run(ctx):
         szl = op_local(s['rv'][2][names.index('size')])
         lenc = any(callee_of(b.term[d[0]]) and callee_of(b.term[d[0]]).endswith('Vec::len') for x in b.derived_from(szl) for d in b.defs().get(x, ()) if d[1] == 'call') if szl is not None else False
         ctx.ob('R19.4', 'chunk header fields', 'instance_id' in fs_i and 'task_id' in fs_t and lenc, 'the header carries the sender task id, instance id and the length of the data', b.loc(bi))
+
+    # ---- R19.5 a writer file cut inside a chunk header
+    EK = [e for e in prog.enums if e.endswith('io::error::ErrorKind')]
+    ctx.require(len(EK) == 1, 'R19.5: io::ErrorKind enum not in facts')
+    EK = EK[0]
+    RESULT_ = 'core::result::Result'
+    des = rc.call_blocks(lambda c: c.endswith('Options::deserialize_from'))
+    ctx.require(des, 'R19.5: read_chunk does not deserialize')
+    dkey = sorted([k for k, d in scrutinees(rc, RESULT_).items() if d['root'] == rc.term[des[0]]['d'][0]], key=len)
+    none_ok = []
+    for bi in rc.reachable():
+        for st in rc.stmts(bi):
+            if st['k'] == 'a' and st['p'] == [0, []] and st['rv'][0] == 'agg' and st['rv'][1][0] == 'adt' and st['rv'][1][1] == RESULT_ and st['rv'][1][2] == 'Ok':
+                l = op_local(st['rv'][2][0])
+                sd = rc.single_def(l) if l is not None else None
+                if sd and sd[1] == 'a' and sd[2]['rv'][0] == 'agg' and sd[2]['rv'][1][0] == 'adt' and sd[2]['rv'][1][2] == 'None':
+                    none_ok.append((bi, st))
+    ctx.ob('R19.5', 'read_chunk|end of file is Ok(None)', bool(none_ok), 'read_chunk has an Ok(None) result that ends the file', rc.loc(none_ok[0][0], none_ok[0][1]) if none_ok else rc.loc())
+    tol = False
+    for bi, st in none_ok:
+        vs = variants_at(rc, EK, bi)
+        in_err = bool(dkey) and set(variants_at(rc, RESULT_, bi, dkey[0]) or ()) == {'Err'}
+        if vs is not None and set(vs) == {'UnexpectedEof'} and in_err:
+            tol = True
+    ctx.ob('R19.5', 'read_chunk|UnexpectedEof while decoding a header ends the file', tol,
+           'the Ok(None) result is produced in the Err arm of the header deserialization under io::ErrorKind::UnexpectedEof (a header cut short by a crash is the end of that file, not an error of the whole stream directory)', rc.loc(des[0]))
